@@ -38,6 +38,9 @@ Third round: R4a-path-codec-pair — encode_git_path / decode_git_path name the 
 str()/bytes() or codecs.* with constant arguments); parent-config-read-fresh — TransportRepo.get_config / get_config_stack read
 the file on every call and keep no parsed copy on self. The R4/R5/identity tables are now fail-closed: when the abstract
 interpreter cannot evaluate the functions any more the run ends as ANALYSIS-ERROR instead of a silent "not decided".
+Fourth round: R3b-ref-parameter-codec-pair — the ,ref= URL parameter written by git_url_to_bzr_url with quote_from_bytes is returned by
+GitDir._get_selected_ref through unquote_to_bytes (byte-exact; refs need not be UTF-8). R5b-null-sha-short-circuits — under the assumption
+sha == ZERO_SHA no object-store lookup is reachable in LocalGitRepository.lookup_foreign_revision_id and NULL_REVISION is returned.
 Does not decide: quoting of arbitrary bytes (urlutils).
 """
 
@@ -388,8 +391,41 @@ def run(ctx):
         memo = sorted({norm(t) for a in walk_own(f_) if isinstance(a, (ast.Assign, ast.AugAssign)) for t in (a.targets if isinstance(a, ast.Assign) else [a.target]) if norm(t).startswith("self.")} | {norm(r_.value) for r_ in walk_own(f_) if isinstance(r_, ast.Return) and r_.value is not None and isinstance(r_.value, ast.Attribute) and norm(r_.value).startswith("self.")})
         reads = any(call_attr(c) in ("get", "get_bytes") and "transport" in (call_recv(c) or "") for c in calls_in(f_)) or any(norm(c.func) == "self.get_config" for c in calls_in(f_))
         ctx.check("parent-config-read-fresh", f"{TG}:{fname}", reads and not memo, f"{fname.split('.')[1]} reads the config file on every call and keeps no parsed copy on the repository object", construct=str(memo), message=f"{fname} keeps the parsed git configuration on the object ({memo}): a parent location written through another handle of the same branch, or by git itself, is never seen by this handle again (not even under a new lock) — the parent that was set is not what is read back")
+    # ---- fourth round: the ref= URL parameter is written and read with the byte-exact codec pair ------------------------
+    GD = "breezy/git/dir.py"
+    fw = repo.func(UR, "git_url_to_bzr_url")
+    wcalls = [s_.value for s_ in walk_own(fw) if isinstance(s_, ast.Assign) and len(s_.targets) == 1 and isinstance(s_.targets[0], ast.Subscript) and const_value(s_.targets[0].slice) == "ref"]
+    ctx.require(len(wcalls) == 1 and isinstance(wcalls[0], ast.Call), f"{UR}:git_url_to_bzr_url: the assignment of the 'ref' URL parameter was not found")
+    wname = norm(wcalls[0].func).split(".")[-1]
+    fr = repo.func(GD, "GitDir._get_selected_ref")
+    gets = [s_ for s_ in walk_own(fr) if isinstance(s_, ast.Assign) and len(s_.targets) == 1 and isinstance(s_.targets[0], ast.Name) and isinstance(s_.value, ast.Call) and call_attr(s_.value) == "get" and s_.value.args and const_value(s_.value.args[0]) == "ref"]
+    ctx.require(len(gets) == 1, f"{GD}:GitDir._get_selected_ref: the read of the 'ref' segment parameter was not found")
+    rvar = gets[0].targets[0].id
+    rets = [r_ for r_ in walk_own(fr) if isinstance(r_, ast.Return) and r_.value is not None and r_.lineno > gets[0].lineno and any(isinstance(n_, ast.Name) and n_.id == rvar for n_ in ast.walk(r_.value))]
+    ctx.require(bool(rets), f"{GD}:GitDir._get_selected_ref: no return of the 'ref' segment parameter found")
+    _PAIR = {"quote_from_bytes": "unquote_to_bytes"}
+    for r_ in rets:
+        rname = norm(r_.value.func).split(".")[-1] if isinstance(r_.value, ast.Call) else norm(r_.value)
+        okp = wname in _PAIR and isinstance(r_.value, ast.Call) and rname == _PAIR[wname] and len(r_.value.args) == 1 and norm(r_.value.args[0]) == rvar
+        ctx.check("R3b-ref-parameter-codec-pair", f"{GD}:GitDir._get_selected_ref", okp, f"the ,ref= URL parameter written with {wname}() is read back with its byte-exact inverse", construct=norm(r_.value), message=f"the ,ref= parameter is written by git_url_to_bzr_url with {wname}() (percent-encoding of the raw bytes) but GitDir._get_selected_ref returns `{norm(r_.value)}`: a ref name that is not valid UTF-8 (git allows any bytes) no longer comes back as the bytes it was — the URL of such a branch opens a different (or no) ref")
+    # ---- fourth round: the repository-level sha -> revid lookup keeps the null pair of the mapping -----------------------
+    from ..cfg import build_cfg as _bcfg
+
+    GRP = "breezy/git/repository.py"
+    fl = repo.func(GRP, "LocalGitRepository.lookup_foreign_revision_id")
+    shap = fl.args.args[1].arg
+    g_ = _bcfg(fl)
+    g0 = g_.assume({f"{shap} == ZERO_SHA": True})
+    store = set(g_.find(lambda n: n.ast is not None and any(call_name(c) == "peel_sha" or "object_store" in norm(c) or call_attr(c) == "get_revision_id" for c in n.calls())))
+    ctx.require(bool(store), f"{GRP}:LocalGitRepository.lookup_foreign_revision_id: the object-store lookup was not found")
+    hit = sorted(g0.reachable_from_entry() & store)
+    nullret = [n for n in g0.reachable_from_entry() if isinstance(g_.nodes[n].ast, ast.Return) and g_.nodes[n].ast.value is not None and norm(g_.nodes[n].ast.value).split(".")[-1] == "NULL_REVISION"]
+    ctx.check("R5b-null-sha-short-circuits", f"{GRP}:LocalGitRepository.lookup_foreign_revision_id", not hit and bool(nullret), "for the null sha the lookup answers NULL_REVISION (the mapping's null pair) without consulting the object store", construct=g_.nodes[hit[0]].text() if hit else "", message=f"lookup_foreign_revision_id no longer answers the null sha itself: `{g_.nodes[hit[0]].text() if hit else 'no return of NULL_REVISION'}` is reached with ZERO_SHA, which names no object — the lookup raises KeyError where mapping.revision_id_foreign_to_bzr(ZERO_SHA) is NULL_REVISION; sha -> revid -> sha no longer holds for the null pair (a deleted ref, an unborn branch)")
+
 
 MUTANTS = [
+    Mutant("null sha looked up in the object store first", "breezy/git/repository.py", "        if foreign_revid == ZERO_SHA:\n            return _mod_revision.NULL_REVISION\n        _unpeeled, peeled = peel_sha(self._git.object_store, foreign_revid)\n", "        _unpeeled, peeled = peel_sha(self._git.object_store, foreign_revid)\n        if foreign_revid == ZERO_SHA:\n            return _mod_revision.NULL_REVISION\n", expect="R5b-null-sha-short-circuits"),
+    Mutant("ref parameter read back without unquoting", "breezy/git/dir.py", "            return urlutils.unquote_to_bytes(ref)\n", "            return ref.encode(\"utf-8\")\n", expect="R3b-ref-parameter-codec-pair"),
     Mutant("git paths decoded with the locale's codec", MP, '    return path.decode("utf-8", "surrogateescape")\n', '    import os\n\n    return os.fsdecode(path)\n', expect="R4a-path-codec-pair"),
     Mutant("parse_file_id forgets to unescape", MP, "        return decode_git_path(unescape_file_id(file_id[len(FILE_ID_PREFIX) :]))\n", "        return decode_git_path(file_id[len(FILE_ID_PREFIX) :])\n", expect="R4-fileid-roundtrip-table"),
     Mutant("revision id written with another separator", MP, "        return b\"%s:%s\" % (cls.revid_prefix, git_rev_id)\n", "        return b\"%s-%s\" % (cls.revid_prefix, git_rev_id)\n", expect="R5-revid-roundtrip-table"),
